@@ -362,8 +362,16 @@ def write_bytecode_file(
     """Write bytecode file _bytecode_path_, with code for having Python
     magic_int (i.e. bytecode associated with some version of Python)
     """
-    fp = open(bytecode_path, "wb")
     version = py_str2tuple(magicint2version[magic_int])
+    if version < (2, 3) and not isinstance(code_obj, types.CodeType):
+        # Before 2.3 the numeric fields of a code object are 16 bits wide
+        # (and 2.0 has no free or cell variables); xdis.marsh writes the
+        # 2.3+ layout only.
+        raise TypeError(
+            "writing bytecode for Python %s is not supported (need 2.3 or later)"
+            % magicint2version[magic_int]
+        )
+    fp = open(bytecode_path, "wb")
     if version >= (3, 0):
         fp.write(pack("<Hcc", magic_int, b"\r", b"\n"))
         if version >= (3, 7):  # pep552 bytes
